@@ -109,6 +109,71 @@ def r3(ctx):
     ctx.floor(rule, n, "C09.R3.emitters")
 
 
+SAME_SHAPE = ("Bool", "U8", "I8", "U16", "I16", "U32", "I32", "U64", "I64", "Null", "Option", "Default", "Complex")
+
+
+def r4(ctx):
+    from .. import rules as R
+    rule = "C09.R4"
+    ctx.rule(rule, "sibling type printers: RustType::to_string (type of a field) and RustType::to_const_lit_string (type of the "
+                   "constants declared for that field) print the same word for every scalar variant and treat the wrappers alike "
+                   "(Option: `Option<inner>`, Default: the inner type, Complex: the name) - otherwise `pub const X: T = lit` is "
+                   "declared with a type the literal / the field does not have and rustc rejects the generated file")
+    P = ctx.program()
+    bodies = {}
+    for nm in ("to_string", "to_const_lit_string"):
+        bs = [b for b in P.lib_bodies("asn1rs_model") if b.name == nm and b.def_kind == "AssocFn" and "RustType" in (b.impl_self_ty or "")]
+        if len(bs) != 1:
+            ctx.fail(rule, "anchor-lost:RustType::" + nm, "matched %d bodies" % len(bs))
+            return
+        bodies[nm] = bs[0]
+    desc = {}
+    for nm, b in bodies.items():
+        O = X.Origins(b, P)
+        d = {}
+        for a in R.match_tables(P, b, O):
+            if len(a.path) != 1:
+                continue
+            words, fmt, rec = set(), False, False
+            for bb in sorted(a.blocks):
+                blk = b.blocks[bb]
+                for st in blk["stmts"]:
+                    if st["k"] == "assign":
+                        rv = st["rv"]
+                        for o in [rv.get(k) for k in ("op", "l", "r", "a")] + list(rv.get("ops", [])):
+                            if isinstance(o, dict) and o.get("k") == "const" and o.get("ty") == "&str":
+                                words.add(o["s"].strip('"'))
+                t = blk["term"]
+                if t and t["k"] == "call" and t["func"]["k"] == "const" and t["func"].get("fn"):
+                    f = t["func"]["fn"]
+                    if f["name"] == "format" and "fmt" in (f.get("def") or ""):
+                        fmt = True
+                    if f["name"] == nm and "RustType" in ((f.get("impl_self_ty") or "") + (f.get("full") or "") + (f.get("resolved") or "")):
+                        rec = True
+                    for o in t["args"]:
+                        if o.get("k") == "const" and o.get("ty") == "&str":
+                            words.add(o["s"].strip('"'))
+            d[a.path[0][1]] = {"words": sorted(words), "formats": fmt, "recurses_into_inner": rec}
+        desc[nm] = d
+    n = 0
+    for v in SAME_SHAPE:
+        a, c = desc["to_string"].get(v), desc["to_const_lit_string"].get(v)
+        if a is None or c is None:
+            ctx.fail(rule, "RustType::" + v, "variant %s has no arm in %s" % (v, "to_string" if a is None else "to_const_lit_string"),
+                     "%s:%d" % (bodies["to_string"].file, bodies["to_string"].line))
+            continue
+        n += 1
+        detail = {"variant": v, "to_string": a, "to_const_lit_string": c}
+        if a != c:
+            ctx.fail(rule, "RustType::" + v, "the field type printer handles RustType::%s as %s, the constant type printer as %s: constants of "
+                                             "such a field are declared with a different type than the field" % (v, a, c),
+                     "%s:%d" % (bodies["to_const_lit_string"].file, bodies["to_const_lit_string"].line), detail)
+        else:
+            ctx.ok(rule, "RustType::" + v, detail)
+    ctx.floor(rule, n, "C09.R4.variants")
+
+
 def run(ctx):
     r1(ctx)
     r3(ctx)
+    r4(ctx)
